@@ -44,6 +44,9 @@ def build_harness():
             toml = open(os.path.join(HARNESS, "Cargo.toml")).read().replace('path = "/repo"', f'path = "{repo}"')
             open(os.path.join(hdir, "Cargo.toml"), "w").write(toml)
         RTCPV = os.path.join(hdir, "target", "release", "rtcpv")
+    if os.environ.get("VERIF_RTCPV"):
+        RTCPV = os.environ["VERIF_RTCPV"]          # development: a pre-built (e.g. coverage-instrumented) executor
+        return
     t0 = time.time()
     r = subprocess.run(["cargo", "build", "--release", "--offline"], cwd=hdir, env=env,
                        stdout=subprocess.PIPE, stderr=subprocess.STDOUT, text=True)
